@@ -2,13 +2,18 @@ package app_test
 
 // Engine `incentives` (property C09): REAL x/incentives + x/lockup keepers through the app.
 // A history = one chain state: 3 lock owners (+2 pure reward receivers, +1 gauge creator), 2 lock denoms,
-// lock durations around the lockable set, 4 reward denoms (base denom, "stake", two pool-priced denoms, one of which can lose
-// its protorev route), lock-based gauges perpetual / non-perpetual (1..6 epochs) starting before / at / after "now", top-ups.
+// lock durations around the lockable set, 6 reward denoms (base denom, "stake", two balancer-priced denoms, one of which can lose
+// its protorev route, "rewe" priced by a balancer pool that in some histories is so expensive that the pool's quote of the
+// minimum FAILS, "rewz" priced by a concentrated pool that in half of the histories quotes the minimum as 0), a configured
+// minimum of 0 / 1 .. 10000 / 1e15, lock-based gauges perpetual / non-perpetual (1..6 epochs) starting before / at / after "now", top-ups.
 // Between epochs locks are created / topped up / begin unlocking (fully or split) / change their reward receiver / mature.
 // An epoch = incentives.AfterEpochEnd(distribution epoch identifier) on a context whose block time advanced, inside a cache
 // context (as the epochs module's hook wrapper does).  The epoch op line carries the lock snapshot read from the lockup
-// keeper with the very query the distribution uses, and the minimum-value table the real filter will use.
-// The ORACLE shares nothing with the Lean model: own lock book + big.Rat floor shares + own schedule counters.
+// keeper with the very query the distribution uses, and the quote table the real filter will obtain (per routed denom: the
+// amount CalcOutAmtGivenIn(route pool, minimum) returns, or `!` when that call fails).
+// The ORACLE shares nothing with the Lean model: own lock book + big.Rat floor shares + own schedule counters; it states the
+// property's clause: a qualifying lock's share is skipped iff it is worth less than the configured minimum converted through the
+// route's pool quote, or the denom has no route.
 
 import (
 	"os"
@@ -20,6 +25,7 @@ import (
 	"testing"
 	"time"
 
+	storetypes "cosmossdk.io/store/types"
 	sdk "github.com/cosmos/cosmos-sdk/types"
 
 	"github.com/osmosis-labs/osmosis/osmomath"
@@ -27,6 +33,7 @@ import (
 	incentivestypes "github.com/osmosis-labs/osmosis/v31/x/incentives/types"
 	lockupkeeper "github.com/osmosis-labs/osmosis/v31/x/lockup/keeper"
 	lockuptypes "github.com/osmosis-labs/osmosis/v31/x/lockup/types"
+	poolincentivestypes "github.com/osmosis-labs/osmosis/v31/x/pool-incentives/types"
 )
 
 type incLock struct {
@@ -72,12 +79,29 @@ func incIdsStr(ids []uint64) string {
 	return "[" + strings.Join(p, ",") + "]"
 }
 
+// restoreRawStore puts a module store back to a recorded content (keys added since are deleted, changed ones rewritten).
+func restoreRawStore(ctx sdk.Context, key storetypes.StoreKey, want map[string]string) {
+	store := ctx.KVStore(key)
+	for k, v := range rawStoreMap(ctx, key) {
+		if w, ok := want[k]; !ok {
+			store.Delete([]byte(k))
+		} else if w != v {
+			store.Set([]byte(k), []byte(w))
+		}
+	}
+	for k, w := range want {
+		if !store.Has([]byte(k)) {
+			store.Set([]byte(k), []byte(w))
+		}
+	}
+}
+
 func runIncentives(t *testing.T, seed int64, n int, dir string) {
 	r := rand.New(rand.NewSource(seed))
 	o := NewOut(dir)
 	h := newH(t)
 	base := appparams.BaseCoinUnit
-	rewardDenoms := []string{"rewa", "rewb", "stake", base} // sorted
+	rewardDenoms := []string{"rewa", "rewb", "rewe", "rewz", "stake", base} // sorted
 	sort.Strings(rewardDenoms)
 	lockDenoms := []string{"lpa", "lpb"}
 	var lockable []time.Duration // the chain's lockable durations (1s, 1h, 3h, 7h in the test genesis), read per history
@@ -120,21 +144,49 @@ func runIncentives(t *testing.T, seed int64, n int, dir string) {
 		ident := ik.GetParams(h.Ctx).DistrEpochIdentifier
 		lockable = ik.GetLockableDurations(h.Ctx)
 
-		// ---- price routes: base<->d balancer pools registered in protorev
-		minAmt := []int64{1, 10, 150, 1000, 10000}[r.Intn(5)]
+		// ---- the configured minimum: 0 (a zero input: balancer quotes fail, the concentrated pool quotes 0), tiny .. default, huge
+		minAmt := []int64{1, 10, 150, 1000, 10000, 10000, 1, 150}[r.Intn(8)]
+		switch r.Intn(16) {
+		case 0:
+			minAmt = 0
+		case 1:
+			minAmt = 1_000_000_000_000_000
+		}
 		minCoin := sdk.NewCoin(base, osmomath.NewInt(minAmt))
 		ik.SetParam(h.Ctx, incentivestypes.KeyMinValueForDistr, minCoin)
+		// ---- price routes registered in protorev: base<->d balancer pools; rewe: in 1 of 4 histories a balancer pool in which one
+		// unit of rewe costs 1e9 base units (the quote of a minimum below that rounds to 0: the balancer pool returns an ERROR);
+		// rewz: a concentrated pool (full-range position), in half of the histories at 1e9 base units per unit (the quote of the
+		// minimum is 0, without error).  The concentrated pool's own NoLock gauge is outside the modelled fragment: the
+		// incentives and pool-incentives stores are put back to what they were before that pool was created.
 		pools := map[string]uint64{}
+		reserves := map[string][2]int64{} // d -> (base reserve, d reserve) at creation: the oracle's own idea of the price
+		exp := map[string]bool{"rewe": r.Intn(4) == 0, "rewz": r.Intn(2) == 0}
 		for _, d := range rewardDenoms {
 			if d == base {
 				continue
 			}
 			ratio := []int64{2, 3, 10, 50}[r.Intn(4)]
-			pid := h.PrepareBalancerPoolWithCoins(sdk.NewCoin(base, osmomath.NewInt(1_000_000)), sdk.NewCoin(d, osmomath.NewInt(1_000_000*ratio)))
+			rb, rd := int64(1_000_000), 1_000_000*ratio
+			if exp[d] {
+				rb, rd = 1_000_000_000_000, 1000
+				o.Count("history.expensive-" + d)
+			}
+			reserves[d] = [2]int64{rb, rd}
+			if d == "rewz" {
+				preInc := rawStoreMap(h.Ctx, h.App.GetKey(incentivestypes.StoreKey))
+				prePI := rawStoreMap(h.Ctx, h.App.GetKey(poolincentivestypes.StoreKey))
+				p := h.PrepareCustomConcentratedPool(h.TestAccs[0], d, base, 100, osmomath.ZeroDec())
+				h.CreateFullRangePosition(p, sdk.NewCoins(sdk.NewCoin(d, osmomath.NewInt(rd)), sdk.NewCoin(base, osmomath.NewInt(rb))))
+				restoreRawStore(h.Ctx, h.App.GetKey(incentivestypes.StoreKey), preInc)
+				restoreRawStore(h.Ctx, h.App.GetKey(poolincentivestypes.StoreKey), prePI)
+				pools[d] = p.GetId()
+				continue
+			}
+			pid := h.PrepareBalancerPoolWithCoins(sdk.NewCoin(base, osmomath.NewInt(rb)), sdk.NewCoin(d, osmomath.NewInt(rd)))
 			pools[d] = pid
-			h.App.ProtoRevKeeper.SetPoolForDenomPair(h.Ctx, base, d, pid) // (protorev's own pool-creation hook registers it too)
 		}
-		routed := map[string]bool{"rewa": true, "rewb": true, "stake": true}
+		routed := map[string]bool{"rewa": true, "rewb": true, "rewe": true, "rewz": true, "stake": true}
 		setRoutes := func() {
 			for _, d := range rewardDenoms {
 				h.App.ProtoRevKeeper.DeleteAllPoolsForBaseDenom(h.Ctx, d)
@@ -158,9 +210,11 @@ func runIncentives(t *testing.T, seed int64, n int, dir string) {
 			}
 			return strings.Join(p, ",")
 		}
-		// thresholds as the real filter computes them (same pool-module call, read-only)
-		thresholds := func(ctx sdk.Context) map[string]*big.Int {
-			m := map[string]*big.Int{base: big.NewInt(minAmt)}
+		// the quotes the real filter will obtain (same protorev and pool-module calls, read-only): per routed denom the
+		// converted minimum, nil = the quote fails
+		type quote struct{ amt *big.Int } // amt == nil: the call failed
+		thresholds := func(ctx sdk.Context) map[string]quote {
+			m := map[string]quote{base: {big.NewInt(minAmt)}}
 			for _, d := range rewardDenoms {
 				if d == base || !routed[d] {
 					continue
@@ -172,15 +226,19 @@ func runIncentives(t *testing.T, seed int64, n int, dir string) {
 				}
 				mod, pool, err := h.App.PoolManagerKeeper.GetPoolModuleAndPool(ctx, pid)
 				if err != nil {
-					o.Fail("engine:pool-missing", d)
+					m[d] = quote{nil}
 					continue
 				}
-				out, err := mod.CalcOutAmtGivenIn(ctx, pool, minCoin, d, osmomath.ZeroDec())
-				if err != nil || !out.Amount.IsPositive() {
-					o.Fail("engine:zero-threshold", d)
+				var out sdk.Coin
+				if !catch(func() { out, err = mod.CalcOutAmtGivenIn(ctx, pool, minCoin, d, osmomath.ZeroDec()) }) || err != nil {
+					m[d] = quote{nil}
 					continue
 				}
-				m[d] = out.Amount.BigInt()
+				if out.Amount.IsNegative() {
+					o.Fail("engine:negative-quote", d)
+					continue
+				}
+				m[d] = quote{out.Amount.BigInt()}
 			}
 			return m
 		}
@@ -525,7 +583,11 @@ func runIncentives(t *testing.T, seed int64, n int, dir string) {
 					id := uint64(1 + r.Intn(int(last)+2))
 					coins := randCoins(true)
 					h.FundAcc(creator, coins)
-					pre, _, _, _ := readGauges(h.Ctx)
+					pre, _, _, preFin := readGauges(h.Ctx)
+					if len(preFin) > 0 && r.Intn(4) == 0 { // a gauge of the finished store
+						sort.Slice(preFin, func(i, j int) bool { return preFin[i] < preFin[j] })
+						id = preFin[r.Intn(len(preFin))]
+					}
 					cctx, write := h.Ctx.CacheContext()
 					var err error
 					ok := catch(func() { err = ik.AddToGaugeRewards(cctx, creator, coins, id) })
@@ -548,6 +610,14 @@ func runIncentives(t *testing.T, seed int64, n int, dir string) {
 							o.Count("addtogauge.to-" + p.status)
 							if !g.Coins.Equal(p.coins.Add(coins...)) {
 								o.Fail("addtogauge:coins", line)
+							}
+							// finished gauges pay nothing, for ever: a deposit into a gauge of the finished store can never be paid out
+							if p.status == "F" {
+								key := "addtogauge:accepted-into-finished-gauge"
+								if !p.perpetual && p.filled < p.n {
+									key += ":filled<numEpochs"
+								}
+								o.Fail(key, fmt.Sprintf("%s gauge %d is in the finished store (filled %d of %d, distributed %s of %s) and accepted %s", line, id, p.filled, p.n, coinsStr(p.dist), coinsStr(p.coins), coinsStr(coins)))
 							}
 						}
 					}
@@ -640,8 +710,9 @@ func runIncentives(t *testing.T, seed int64, n int, dir string) {
 					} else {
 						o.Count("receiver.err")
 					}
-				default: // the pool-priced denom rewb loses / regains its protorev route
-					routed["rewb"] = !routed["rewb"]
+				default: // a pool-priced denom (rewb; less often rewe, rewz) loses / regains its protorev route
+					td := []string{"rewb", "rewb", "rewe", "rewz"}[r.Intn(4)]
+					routed[td] = !routed[td]
 					setRoutes()
 					emit("incentives routes "+routedCsv(), "ok", false)
 					o.Count("routes.toggle")
@@ -669,8 +740,10 @@ func runIncentives(t *testing.T, seed int64, n int, dir string) {
 			// lock snapshot: the query the distribution itself uses, per lock denom
 			var lockStrs []string
 			seen := map[uint64]bool{}
+			chainOrder := map[uint64]int{} // position of each lock in the chain's own query result
 			for _, d := range lockDenoms {
 				for _, l := range lk.GetLocksLongerThanDurationDenom(ctx, d, time.Millisecond) {
+					chainOrder[l.ID] = len(chainOrder)
 					oi, okk := addrIdx[l.Owner]
 					if !okk {
 						o.Fail("engine:unknown-owner", l.Owner)
@@ -710,7 +783,11 @@ func runIncentives(t *testing.T, seed int64, n int, dir string) {
 			var thrStrs []string
 			for _, d := range rewardDenoms {
 				if v, okk := thr[d]; okk {
-					thrStrs = append(thrStrs, d+"="+v.String())
+					if v.amt == nil {
+						thrStrs = append(thrStrs, d+"=!")
+					} else {
+						thrStrs = append(thrStrs, d+"="+v.amt.String())
+					}
 				}
 			}
 			line := fmt.Sprintf("incentives epoch %d %s %s", now.UnixNano(), strings.Join(thrStrs, ","), locksArg)
@@ -727,7 +804,41 @@ func runIncentives(t *testing.T, seed int64, n int, dir string) {
 			if !ok || err != nil {
 				emit(line, "err", true)
 				o.Count("epoch.err")
-				o.Fail("epoch:hook-failed", fmt.Sprintf("%s: %v", line, err))
+				// does a gauge that pays in this epoch hold a coin whose minimum-value quote fails?  (book-keeping of the
+				// engine only: active or due gauges with a qualifying lock and a non-spam remainder)
+				key := "epoch:hook-failed"
+				for _, id := range sortedIds(pre) {
+					g := pre[id]
+					if !(g.status == "A" || (g.status == "U" && !g.start.After(now))) {
+						continue
+					}
+					remaining, neg := g.coins.SafeSub(g.dist...)
+					hasLock := false
+					for _, l := range book {
+						hasLock = hasLock || (l.denom == g.denom && l.dur >= g.dur)
+					}
+					if neg || !hasLock || len(remaining) == 0 || (len(remaining) == 1 && remaining[0].Amount.LTE(osmomath.NewInt(100)) && remaining[0].Denom != "stake") {
+						continue
+					}
+					for _, c := range remaining {
+						if v, okk := thr[c.Denom]; okk && v.amt == nil {
+							// class of the failing quote by the oracle's own idea of the price (reserves at pool creation)
+							rs := reserves[c.Denom]
+							switch {
+							case minAmt == 0:
+								key = "epoch:hook-failed:minimum-value-quote-error:configured-minimum-is-zero"
+							case new(big.Int).Mul(big.NewInt(minAmt), big.NewInt(rs[1])).Cmp(big.NewInt(rs[0])) < 0:
+								key = "epoch:hook-failed:minimum-value-quote-error:converted-minimum-below-one-unit"
+							default:
+								key = "epoch:hook-failed:minimum-value-quote-error:other"
+							}
+						}
+					}
+				}
+				if key != "epoch:hook-failed" {
+					o.Count("epoch.err.minimum-value-quote-error")
+				}
+				o.Fail(key, fmt.Sprintf("%s: %v", line, err))
 				continue
 			}
 			write()
@@ -762,6 +873,11 @@ func runIncentives(t *testing.T, seed int64, n int, dir string) {
 			for i := range spamExpect {
 				spamExpect[i] = map[string]*big.Int{}
 			}
+			zeroSkip := make([]map[string]*big.Int, len(addrs)) // what the zero-sentinel of the minimum-value cache withheld
+			for i := range zeroSkip {
+				zeroSkip[i] = map[string]*big.Int{}
+			}
+			zeroMinGauges := map[string]int{} // paying gauges per denom whose converted minimum is 0
 			multiRecvOwner := false
 			ownerRecv := map[int]int{} // over all paying gauges of this epoch
 			_ = preAct
@@ -827,28 +943,59 @@ func runIncentives(t *testing.T, seed int64, n int, dir string) {
 					o.Count("oracle.gauge-in-spam-range")
 				}
 				gaugeTotal := map[string]*big.Int{}
+				type lockShare struct {
+					l *incLock
+					x *big.Int
+				}
+				owed := map[string][]lockShare{} // per denom: the shares the property promises, in the chain's lock order
+				recvOf := func(l *incLock) int {
+					if l.recv < 0 {
+						return l.owner
+					}
+					return l.recv
+				}
 				if paying {
 					payingEpochs[id]++
 					o.Count("oracle.gauge-paying-epoch")
-					for _, l := range q {
-						for _, c := range remaining {
+					o.Count(fmt.Sprintf("oracle.gauge-paying-epoch.locks%d", min(len(q), 4)))
+					byChain := append([]*incLock{}, q...)
+					sort.Slice(byChain, func(i, j int) bool { return chainOrder[byChain[i].id] < chainOrder[byChain[j].id] })
+					for _, c := range remaining {
+						// THE CLAUSE: a share is skipped iff the denom has no route ("not valuable at all") or the share is worth
+						// less than the configured minimum converted through the route's pool quote
+						v, routedOk := thr[c.Denom]
+						switch {
+						case !routedOk:
+							o.Count("oracle.denom-class.no-route")
+						case v.amt == nil:
+							o.Count("oracle.denom-class.quote-error") // only reachable when the hook did not fail
+						case v.amt.Sign() == 0 && c.Denom != base:
+							o.Count("oracle.denom-class.converted-minimum-zero")
+							if !spam {
+								zeroMinGauges[c.Denom]++
+							}
+						case c.Denom == base:
+							o.Count("oracle.denom-class.base")
+						default:
+							o.Count("oracle.denom-class.converted-minimum-positive")
+						}
+						for _, l := range byChain {
 							x := ratFloor(new(big.Rat).SetFrac(new(big.Int).Mul(c.Amount.BigInt(), l.amt), new(big.Int).Mul(lockSum, big.NewInt(remEpochs))))
-							v, routedOk := thr[c.Denom]
 							if !routedOk {
 								o.Count("oracle.skipped-not-valuable-at-all")
 								continue
 							}
-							if x.Cmp(v) < 0 {
+							if v.amt == nil {
+								continue
+							}
+							if x.Cmp(v.amt) < 0 {
 								o.Count("oracle.skipped-below-minimum")
 								continue
 							}
 							if x.Sign() == 0 {
 								continue
 							}
-							to := l.recv
-							if to < 0 {
-								to = l.owner
-							}
+							to := recvOf(l)
 							// `expect` is what the property promises; `spamExpect` the part of it owed by gauges that the
 							// code's spam rule (single remaining coin of at most 100 units, not "stake") silently skips
 							addTo := func(tgt []map[string]*big.Int) {
@@ -865,15 +1012,13 @@ func runIncentives(t *testing.T, seed int64, n int, dir string) {
 								gaugeTotal[c.Denom] = new(big.Int)
 							}
 							gaugeTotal[c.Denom].Add(gaugeTotal[c.Denom], x)
+							owed[c.Denom] = append(owed[c.Denom], lockShare{l, x})
 							o.Count("oracle.lock-payout")
 						}
 					}
 					// does one owner hold qualifying locks with different receivers?
 					for _, l := range q {
-						to := l.recv
-						if to < 0 {
-							to = l.owner
-						}
+						to := recvOf(l)
 						if prev, okk := ownerRecv[l.owner]; okk && prev != to {
 							multiRecvOwner = true
 						}
@@ -889,12 +1034,42 @@ func runIncentives(t *testing.T, seed int64, n int, dir string) {
 					if want == nil {
 						want = new(big.Int)
 					}
-					if got.Cmp(want) != 0 {
-						if spam && got.Sign() == 0 {
-							o.Fail("payout:not-floor-share:spam-rule-single-denom-remaining<=100", fmt.Sprintf("%s gauge %d remaining %s paid nothing", line, id, coinsStr(remaining)))
-						} else {
-							o.Fail("payout:not-floor-share:gauge-total", fmt.Sprintf("%s gauge %d %s distributed +%s want +%s", line, id, d, got, want))
+					if got.Cmp(want) == 0 {
+						continue
+					}
+					v := thr[d]
+					zeroMin := d != base && v.amt != nil && v.amt.Sign() == 0
+					// with a converted minimum of 0 every positive share is owed; the code is SEEN to pay at most one lock
+					paidOne := -1
+					if zeroMin && got.Sign() > 0 && got.Cmp(want) < 0 {
+						for i, ls := range owed[d] {
+							if ls.x.Cmp(got) == 0 {
+								paidOne = i
+								break
+							}
 						}
+					}
+					switch {
+					case spam && got.Sign() == 0:
+						o.Fail("payout:not-floor-share:spam-rule-single-denom-remaining<=100", fmt.Sprintf("%s gauge %d remaining %s paid nothing", line, id, coinsStr(remaining)))
+					case zeroMin && (got.Sign() == 0 || paidOne >= 0):
+						key := "payout:qualifying-lock-skipped:converted-minimum-is-zero:later-lock"
+						if got.Sign() == 0 {
+							key = "payout:qualifying-lock-skipped:converted-minimum-is-zero:no-lock-paid"
+						}
+						o.Fail(key, fmt.Sprintf("%s gauge %d %s: %d qualifying locks are owed %s (minimum %s converts to 0%s), distributed +%s", line, id, d, len(owed[d]), want, minCoin, d, got))
+						for i, ls := range owed[d] {
+							if i == paidOne {
+								continue
+							}
+							to := recvOf(ls.l)
+							if zeroSkip[to][d] == nil {
+								zeroSkip[to][d] = new(big.Int)
+							}
+							zeroSkip[to][d].Add(zeroSkip[to][d], ls.x)
+						}
+					default:
+						o.Fail("payout:not-floor-share:gauge-total", fmt.Sprintf("%s gauge %d %s distributed +%s want +%s", line, id, d, got, want))
 					}
 				}
 				// --- filled epochs and finishing
@@ -926,7 +1101,15 @@ func runIncentives(t *testing.T, seed int64, n int, dir string) {
 			}
 			// --- receipts: every address got exactly the floor shares addressed to it, nobody anything else
 			gotTot := map[string]*big.Int{}
-			cmp := func(withSpam bool) (mismatch bool, totalsMatch bool) {
+			for d, k := range zeroMinGauges {
+				if k > 1 {
+					o.Count("oracle.epoch-with-several-gauges-sharing-zero-minimum-denom")
+					_ = d
+				}
+			}
+			// cmp(false): receipts against the property; cmp(true): against the property minus what the spam rule and the
+			// zero-sentinel of the minimum-value cache were seen to withhold per gauge (both keyed above)
+			cmp := func(adjusted bool) (mismatch bool, totalsMatch bool) {
 				wantTot := map[string]*big.Int{}
 				for _, d := range rewardDenoms {
 					gotTot[d], wantTot[d] = new(big.Int), new(big.Int)
@@ -938,8 +1121,11 @@ func runIncentives(t *testing.T, seed int64, n int, dir string) {
 						if expect[i][d] != nil {
 							want.Set(expect[i][d])
 						}
-						if !withSpam && spamExpect[i][d] != nil {
+						if adjusted && spamExpect[i][d] != nil {
 							want.Sub(want, spamExpect[i][d])
+						}
+						if adjusted && zeroSkip[i][d] != nil {
+							want.Sub(want, zeroSkip[i][d])
 						}
 						gotTot[d].Add(gotTot[d], got)
 						wantTot[d].Add(wantTot[d], want)
@@ -956,17 +1142,33 @@ func runIncentives(t *testing.T, seed int64, n int, dir string) {
 				}
 				return
 			}
-			if mismatch, totalsMatch := cmp(true); mismatch {
-				mm2, tm2 := cmp(false)
+			nonEmpty := func(m []map[string]*big.Int) bool {
+				for _, x := range m {
+					if len(x) > 0 {
+						return true
+					}
+				}
+				return false
+			}
+			withheld := func() { // the per-gauge deviations that explain the receipts
+				if nonEmpty(spamExpect) {
+					o.Fail("payout:not-floor-share:spam-rule-single-denom-remaining<=100", fmt.Sprintf("%s got %v", line, payStrs))
+				}
+				if nonEmpty(zeroSkip) {
+					o.Fail("payout:qualifying-lock-skipped:converted-minimum-is-zero:receipts", fmt.Sprintf("%s got %v", line, payStrs))
+				}
+			}
+			if mismatch, totalsMatch := cmp(false); mismatch {
+				mm2, tm2 := cmp(true)
 				switch {
 				case totalsMatch && multiRecvOwner:
 					o.Fail("payout:wrong-receiver:owner-has-qualifying-locks-with-different-receivers", fmt.Sprintf("%s got %v", line, payStrs))
 				case totalsMatch:
 					o.Fail("payout:wrong-receiver", fmt.Sprintf("%s got %v", line, payStrs))
-				case !mm2:
-					o.Fail("payout:not-floor-share:spam-rule-single-denom-remaining<=100", fmt.Sprintf("%s got %v", line, payStrs))
-				case tm2 && multiRecvOwner: // both deviations in one epoch
-					o.Fail("payout:not-floor-share:spam-rule-single-denom-remaining<=100", fmt.Sprintf("%s got %v", line, payStrs))
+				case !mm2 && (nonEmpty(spamExpect) || nonEmpty(zeroSkip)):
+					withheld()
+				case tm2 && multiRecvOwner && (nonEmpty(spamExpect) || nonEmpty(zeroSkip)): // both deviations in one epoch
+					withheld()
 					o.Fail("payout:wrong-receiver:owner-has-qualifying-locks-with-different-receivers", fmt.Sprintf("%s got %v", line, payStrs))
 				default:
 					o.Fail("payout:not-floor-share:receipts", fmt.Sprintf("%s got %v", line, payStrs))
